@@ -26,7 +26,8 @@ def gen_body(r, formals, known):
         elif x < 0.58 and formals:
             parts.append('`"' + r.choice(formals) + r.choice(["", " is ", "="]) + '`"')
         elif x < 0.63 and formals:
-            parts.append('"' + r.choice(formals) + ' lit"')          # plain string: untouched
+            parts.append(r.choice(['"' + r.choice(formals) + ' lit"', '""', '"\\""', '"' + r.choice(formals) + '\\\\"',
+                                   '"", ' + r.choice(formals)]))       # plain strings (empty, with escapes): untouched
         elif x < 0.7 and known:
             k = r.choice(known)
             parts.append("`" + k[0] + ("(" + ",".join(r.choice(["1", "z"] + formals) for _ in k[1]) + ")" if k[1] else ""))
@@ -37,7 +38,10 @@ def gen_body(r, formals, known):
         else:
             parts.append(r.choice(["+", "-", ";", "1", "wire", "foo", "(", ")", ",", "=="]))
         parts.append(r.choice([" ", " ", "", "  "]))
-    return "".join(parts).replace("( ", "(").strip(" ") or "1"
+    body = "".join(parts).replace("( ", "(").strip(" ") or "1"
+    if r.random() < 0.12:
+        body = "\\\n" + r.choice(["", "  "]) + body          # the body starts on the continuation line
+    return body
 
 
 def gen_program(r, errors=False):
@@ -86,6 +90,9 @@ def gen_program(r, errors=False):
 
 
 HAND = [
+    "`define W(y) \"\\\"\" y y``y\n`W(p)\n",                              # escaped quote inside a body string (fixed in 88521f3)
+    "`define L(tag,msg) \\\n$display(\"\",tag,\": msg=\",msg);\n`L(id,val)\n",     # body starts on the continuation line, empty string first
+    "`define Q(a) \"a\\\\\" a \"\\\\\\\"a\" a\n`Q(z)\n",                         # \\ before the closing quote, \\\" inside
     "`define D(x,y) initial $display(\"start\", x , y, \"end\");\n`D( \"msg1\" , \"msg2\" )\n`D( \" msg1\", )\n`D(, \"msg2 \")\n`D(,)\n`D(  ,  )\n",
     "`define MACRO1(a=5,b=\"B\",c) $display(a,,b,,c);\n`MACRO1 ( , 2, 3 )\n`MACRO1 ( 1 , , 3 )\n`MACRO1 ( , 2, )\n",
     "`define MACRO2(a=5, b, c=\"C\") $display(a,,b,,c);\n`MACRO2 (1, , 3)\n`MACRO2 (, 2, )\n`MACRO2 (, 2)\n",
